@@ -20,8 +20,8 @@ from harness import fw
 META = {
     "id": "C16",
     "technique": "Coq proof (buzzer device model: induction over call sequences and loop counters; melody tables: reflection over translator-generated tables against a pinned score) + extracted-model correspondence with the emitted C++ executed under the mock Arduino core + property oracle on the firmware trace",
-    "level_text": "Theorems C16_* (coq/Props/C16.v) hold for all call sequences and all rational arguments of a Gallina model written line by line from the five buzzer emitter branches; the emitter's melody table and the parser's name set are regenerated from the source on every run and proved equal to a pinned score; the model is run against the real parser+emitter output (compiled, executed on the mock core) on exhaustive boundary grids, exhaustive pairs of boundary calls and seeded random sequences with literal and run-time arguments.",
-    "level_note": "Trusted: Coq kernel, translator harness/gen/melodies.py, extraction, OCaml driver, mock Arduino core (tone/noTone/delay/Serial/String(float)), g++. C++ float is modelled as exact rational; cases on which float32 and exact arithmetic round an integer output differently are not generated (measured). Negative durations (unsigned wrap / undefined conversion) are outside the guard: known finding.",
+    "level_text": "Theorems C16_* (coq/Props/C16.v) hold for all call sequences and all rational arguments of a Gallina model written line by line from the five buzzer emitter branches; the emitter's melody table and the parser's name set are regenerated from the source on every run and proved equal to a pinned score; the model is run against the real parser+emitter output (compiled, executed on the mock core) on exhaustive boundary grids, exhaustive pairs of boundary calls, seeded random sequences with literal and run-time arguments, bodies repeated over passes of loop() and of a for loop, two interleaved buzzers, and arguments computed from the buzzer's own getters; the thorough tier re-runs a sample under ASan+UBSan.",
+    "level_note": "Trusted: Coq kernel, translator harness/gen/melodies.py, extraction, OCaml driver, mock Arduino core (tone/noTone/delay/Serial/String(float)), g++. C++ float is modelled as exact rational; cases on which float32 and exact arithmetic round an integer output differently are not generated (measured). Four known findings delimit the guard: beep(times<=0) leaves a running tone, negative run-time durations wrap, sweep(steps<=0) plays one tone, frequencies in (0, 0.5) become tone(pin, 0).",
     "design_ref": "DESIGN.md section 4 C16",
 }
 
@@ -1105,7 +1105,8 @@ def run(ctx: C.Ctx):
                        "static_cast<unsigned long> of a negative value (wrap-around for int expressions, undefined for float expressions; [neg] oracle in the model)",
                        "non-ASCII melody names (str.lower of U+212A)", "IEEE specials", "several buzzers sharing one pin",
                        "what the real Arduino core does with tone(pin, 0) (the mock only logs it)",
-                       "calls on a receiver that was never declared as Buzzer; buzzer calls under if/for/try (statement layer: C05/C07)"],
+                       "calls on a receiver that was never declared as Buzzer; buzzer calls under if/try/with or inside user-defined functions (statement layer: C01/C05/C07; `for` and `while True:` are exercised)",
+                       "a Buzzer declared inside a block (its globals are then never declared: the sketch does not compile - C06)"],
         "trusted_base": C.COMMON_TRUSTED + ["harness/gen/melodies.py (translator plug-in for the melody tables)",
                                              "mock Arduino core mock/* (tone/noTone/delay/Serial.println/analogRead), g++ -O0",
                                              "harness/fw.py, harness/impl/transpile_impl.py, harness/impl/c16_impl.py",
